@@ -44,7 +44,7 @@ def tasks_for(tier):
         for k in range(9):
             out.append((base + 100 + k, 1 + k % 2, k % 3 == 0, None, 'rand'))
     else:
-        for rep in range(12):
+        for rep in range(30):
             for sp in SPELL + [None]:
                 for (depth, reuse, inner) in [(1, False, 'rand'), (1, True, 'rand'), (2, False, 'rand'), (2, True, 'slab'), (3, False, 'slab')]:
                     out.append((base + i, depth, reuse, sp, inner))
